@@ -59,22 +59,27 @@ TREE = {"inc.mac": "mov gl, r1\n.word gl\n",
         "onc.mac": "\t.once\n\tnop\n\t.word .\n"}
 
 
+# depth 4 (thorough) is complete over this core: one statement per mechanism (absolute word, PC-relative, branch, label difference,
+# '.', symbol of an address, include-internal label, label inside an include, skip, '.once' include)
+CORE = [0, 3, 4, 6, 8, 10, 16, 19, 22, 23, 24]
+
+
 def bound(tier):
-    return "depth %d complete over %d statements x 3 base placements x 5-7 bases, all base pairs compared" % (4 if tier == "thorough" else 3, len(S))
+    return "depth 3 complete over %d statements%s x 3 base placements x %s bases, all base pairs compared" % (
+        len(S), (", depth 4 complete over a core of %d statements" % len(CORE)) if tier == "thorough" else "", "5-7" if tier == "thorough" else "4-6")
 
 
 def cases(tier):
-    depth = 4 if tier == "thorough" else 3
-    for d in range(1, depth + 1):
+    for d in range(1, 4):
         if d <= 2:
             yield {"k": "seq", "d": d, "first": []}
-        elif d == 3:
-            for f in range(len(S)):
-                yield {"k": "seq", "d": d, "first": [f]}
         else:
             for f in range(len(S)):
-                for g in range(len(S)):
-                    yield {"k": "seq", "d": d, "first": [f, g]}
+                yield {"k": "seq", "d": d, "first": [f]}
+    if tier == "thorough":
+        for f in CORE:
+            for g in CORE:
+                yield {"k": "seq", "d": 4, "first": [f, g], "core": True}
 
 
 def build(idx, base, place):
@@ -219,5 +224,5 @@ def check(case, r, tier):
             PLACE = saved
         return
     d, first = case["d"], case["first"]
-    for rest in itertools.product(range(len(S)), repeat=d - len(first)):
+    for rest in itertools.product(CORE if case.get("core") else range(len(S)), repeat=d - len(first)):
         check_seq(first + list(rest), r)
